@@ -88,7 +88,7 @@ def c02(tier):
   run = common.Run("C02", tier, "model_checking")
   run.assumptions += ASSUME_SEQ
   n = 2500 if tier == "quick" else 40000
-  P = gen.profile(nmin=1, nmax=12, deep=0.7, w_none=45, w_unh=20, w_hook=20, w_tran=15, live=0.0, clocks=("fine",),
+  P = gen.profile(nmin=1, nmax=12, deep=0.7, w_none=45, w_unh=20, w_hook=20, w_tran=15, w_null=8, live=0.0, clocks=("fine",),
                   hosts=(("queued", 5), ("instr", 2), ("plain", 3)), p_spied=0.6, p_eff=0.1,
                   w_ops=dict(step=60, dispatch=30, post=3, defer=0, recall=0, is_in=3, child=2, scribble=0,
                              clear_spy=0, clear_trace=0, empty_rtc=0))
@@ -103,8 +103,8 @@ def c03(tier):
   run = common.Run("C03", tier, "model_checking")
   run.assumptions += ASSUME_SEQ
   n = 3000 if tier == "quick" else 40000
-  P = gen.profile(nmin=1, nmax=14, deep=0.8, p_init=0.7, live=0.0, clocks=("fine",), p_eff=0.15,
-                  hosts=(("queued", 4), ("instr", 3), ("plain", 3)), p_spied=0.6, nops=(0, 2),
+  P = gen.profile(nmin=1, nmax=14, deep=0.8, p_init=0.7, live=0.0, clocks=("fine",), p_eff=0.15, p_restart=0.25,
+                  hosts=(("queued", 4), ("instr", 3), ("plain", 3)), p_spied=0.6, nops=(0, 3),
                   w_ops=dict(step=50, dispatch=30, post=0, defer=0, recall=0, is_in=10, child=10, scribble=0,
                              clear_spy=0, clear_trace=0, empty_rtc=0))
   with cf.ThreadPoolExecutor(2) as ex:
@@ -136,8 +136,41 @@ c19 = _simple("C19", gen.profile(hosts=(("queued", 6), ("instr", 2)), p_spied=1.
                                  nops=(4, 14), w_ops=dict(QOPS, dispatch=8, scribble=8, is_in=5, child=3)), 2500, 40000)
 c20 = _simple("C20", gen.profile(hosts=(("queued", 6), ("instr", 2)), p_spied=1.0, p_eff=0.3, live=0.0, clocks=("fine",),
                                  nops=(4, 14), w_tran=30, w_hook=25, w_ops=dict(QOPS, dispatch=8)), 2500, 40000)
-c21 = _simple("C21", gen.profile(hosts=(("queued", 1),), p_spied=1.0, p_eff=0.3, live=1.0,
-                                 clocks=("fine", "const", "coarse", "back"), nops=(4, 14), w_ops=dict(QOPS, dispatch=0)), 2500, 40000)
+_c21_seq = _simple("C21", gen.profile(hosts=(("queued", 1),), p_spied=1.0, p_eff=0.3, live=1.0,
+                                      clocks=("fine", "const", "coarse", "back"), nops=(4, 14), w_ops=dict(QOPS, dispatch=0)), 2500, 40000)
+
+
+def c21(tier):
+  """queued charts under every clock (Hsm.tla's live-output model), then the active-object host: live spy and live trace go through
+  the writer thread while posters, the object's thread and the writer are interleaved by the scheduler (AOTrace.tla LiveSpy/LiveTrace)"""
+  run = common.Run("C21", tier, "model_checking")
+  run.assumptions += ASSUME_SEQ + ["active-object host: the lines judged are the handler-call lines of the live spy and the live trace records; markers "
+                                   "of posts made by other threads while a step runs are not lines produced by that step"]
+  P = gen.profile(hosts=(("queued", 1),), p_spied=1.0, p_eff=0.3, live=1.0, clocks=("fine", "const", "coarse", "back"), nops=(4, 14),
+                  w_ops=dict(QOPS, dispatch=0))
+  with cf.ThreadPoolExecutor(2) as ex:
+    f = ex.submit(model_check_hsm, run, tier)
+    seqcheck.run(run, "C21", 2500 if tier == "quick" else 40000, P)
+    f.result()
+  from harness import aocheck
+  results = aocheck.run_batch(400 if tier == "quick" else 8000, kinds=("random", "pct"), caps=(5, 8), force="c21")
+  verdicts, st, trn = aocheck.validate_all(results)
+  by = dict(results)
+  lines = recs = 0
+  for tid, v in verdicts.items():
+    if v.get("stuck"):
+      raise common.MachineryError("AO trace %s not consumed" % tid)
+    r = by[tid]
+    lines += len(r["liveout"]["live_spy_calls"])
+    recs += len(r["liveout"]["live_trc"])
+    for c in v.get("bad", []):
+      if c in ("LiveSpy", "LiveTrace", "Error"):
+        run.violation("ao-host:" + c, "active object with live output, execution %d rejected: %s; outcome=%s errors=%s live trace=%s dispatched signals=%s" % (
+          tid, c, r["outcome"], [e[:2] for e in r["errors"][:1]], r["liveout"]["live_trc"][:8], r["liveout"]["disp_sigs"][:8]),
+          {"cfg": r["cfg"], "schedule": r["schedule"], "verdict": v, "liveout": r["liveout"], "errors": r["errors"][:1]})
+  run.add(active_object_executions=len(results), active_object_live_spy_lines_checked=lines, active_object_live_trace_records_checked=recs,
+          states=st, transitions=trn)
+  return run.finish()
 c22 = _simple("C22", gen.profile(p_eff=0.1, live=0.0, clocks=("fine",), hosts=(("queued", 4), ("instr", 3), ("plain", 3)),
                                  p_spied=0.6, p_bad_child=0.3,
                                  w_ops=dict(step=30, dispatch=15, post=2, defer=0, recall=0, is_in=30, child=25, scribble=0,
